@@ -76,23 +76,26 @@ CLAIMS = {
                      "tree), over the tree-builder model of C02, PARTIAL: per-token split theorems for the 'text' insertion mode "
                      "(C03_tree_text_mode_split_partial: one character token or two give the same answers, states equal up to "
                      "the event log - leading-LF dropping included - and the same abstract DOM, because DomSpec merges adjacent "
-                     "text: C03_tree_append_text_merges) and for 'in body' with its delegators 'in caption' / 'in template' "
+                     "text: C03_tree_append_text_merges), for 'in body' with its delegators 'in caption' / 'in template' / 'in cell' "
                      "(C03_tree_body_mode_split_partial: the second reconstruct-the-active-formatting-elements is a no-op, "
-                     "frameset-ok is the OR over the pieces); the frame property - the event log of the model is write-only, one "
+                     "frameset-ok is the OR over the pieces; 'in cell' under its shape assumption, carried through reconstruct) "
+                     "and for tokens handled by the foreign-content rules in any mode (C03_tree_foreign_split_partial, "
+                     "C03_tree_foreign_test_on_chars); the frame property - the event log of the model is write-only, one "
                      "lemma per definition of the model (C03_tree_event_log_is_write_only, C03_tree_token_line_irrelevant); and on "
                      "top of them the statement for whole token lists (C03_tree_split_run_partial: a token list and the same list "
                      "with character tokens cut into pieces end in states with the same core and the same DOM), RESTRICTED by the "
                      "explicit side condition TreeSplitRun.splits_cov that every cut happens in a covered state (foster parenting "
-                     "off, current node not a template element, mode 'text' or 'in body' / 'in caption' / 'in template' with an "
-                     "HTML adjusted current node); the side condition has a sound boolean checker and a computed example "
-                     "(C03_tree_split_side_condition_checker_sound, C03_tree_split_example). Also the invariance of the "
+                     "off, current node not a template element, shape assumption of the mode, and mode 'text', or 'in body' / "
+                     "'in caption' / 'in template' / 'in cell' with an HTML adjusted current node, or a token handled by the "
+                     "foreign rules); the side condition has a sound boolean checker and computed examples "
+                     "(C03_tree_split_side_condition_checker_sound, C03_tree_split_example, C03_tree_split_example_cell_foreign). Also the invariance of the "
                      "pending-table-text white-space test (C03_tree_pending_table_text_test) and the flush of a white-space-only "
                      "pending table text with one entry cut in two (C03_tree_table_text_flush_ws_split_partial, "
                      "C03_tree_appends_split; not integrated into the list statement). NOT proved: cuts in the table-text "
-                     "queue in general (queueing steps, foster-parenting branch of the flush), in the modes that split off leading white space (SplitWhitespace), in 'in cell', in "
-                     "foreign content, with foster parenting on or a template element as the current node - see the headers of "
+                     "queue in general (queueing steps, foster-parenting branch of the flush), in the modes that split off leading white space (SplitWhitespace), "
+                     "with foster parenting on or a template element as the current node - see the headers of "
                      "coq/Tree/TreeSplit.v and TreeSplitRun.v. Oracle: metamorphic chunking / script-injection "
-                     "runs on the implementation (tokens, errors, lines, final tree). FUEL DISCHARGED for the default mode too (TokIR/BulkTerm.v, Inst/InstBulkTerm.v): the `regular` hypotheses of the C03_default_mode_* theorems are replaced by the explicit bound (T+1)(2T+10) on unread input + chunks + injectable text (C03_default_mode_run_is_regular, C03_default_mode_against_reference_total, C03_default_mode_is_reference_up_to_obs_total, C03_default_mode_chunking_independent_obs_total - the last still with the all_done hypotheses on the default-mode logs): a default-mode step is n >= 1 exact-mode steps, ended runs are fuel-monotone, EOF loops run in lock step, and the exact-mode chunked interpreter is the terminating reference one.",
+                     "runs on the implementation (tokens, errors, lines, final tree). FUEL DISCHARGED for the default mode too (TokIR/BulkTerm.v, Inst/InstBulkTerm.v): the `regular` hypotheses of the C03_default_mode_* theorems are replaced by the explicit bound (T+1)(2T+10) on unread input + chunks + injectable text (C03_default_mode_run_is_regular, C03_default_mode_against_reference_total, C03_default_mode_is_reference_up_to_obs_total, C03_default_mode_chunking_independent_obs_total - the last still with the all_done hypotheses on the default-mode logs): a default-mode step is n >= 1 exact-mode steps, ended runs are fuel-monotone, EOF loops run in lock step, and the exact-mode chunked interpreter is the terminating reference one. With the no-panic theorem transported to the default mode the all_done hypotheses go too: C03_default_mode_chunking_independent_total (fresh tokenizer: fuel bounds + no driver pause limit 96 in the logs) and C03_default_mode_chunking_independent_no_pauses (sinks that never pause: fuel bounds only).",
                 note=TOK_NOTE, tech="generic Coq suspend/resume proof over regenerated TokIR table + reference/chunked/impl differential + chunking oracle"),
     "C04": dict(cat="proof", ref="DESIGN.md section 5 C04",
                 text="PARTIAL proof (tokenizers). Props/C04.v proves on the regenerated html and xml tables: EOF handling reads no "
@@ -126,7 +129,7 @@ CLAIMS = {
                      "sites, so end() always answers done and every feed entry is done / script pause / encoding indicator / the "
                      "driver model's limit 96; no condition on the sink). The DEFAULT mode over the chunked queue (exact_errors = false, bulk reads, SIMD scan) never runs out of fuel either "
                      "with the same bound, both tokenizers (TokIR/BulkTerm.v: step counting through BulkSim's simulation + QueueSim; "
-                     "C03_default_mode_run_is_regular, C15_default_mode_run_is_regular); its no-panic statement is not transported. "
+                     "C03_default_mode_run_is_regular, C15_default_mode_run_is_regular); and NO PANIC SITE is reached there either (Inst/InstTotalDefault.v: a regular default-mode run has the log of the reference run; C04_html_tokenizer_total_default_mode(+_no_pauses), C04_xml_tokenizer_total_default_mode(+_no_pauses)) - the real default configuration of both tokenizers (exact_errors = false, BufferQueue chunks, bulk reads, SIMD scan) terminates and never panics, with the same caveats (driver pause limit 96; html end() assert site 4 unless the sink never pauses). "
                      "Tree builders, stack depth and "
                      "time are covered by the harness only (panic/abort/hang watch, queue-empty and single-EOF oracles, deep nesting).",
                 note=TOK_NOTE, tech="reflective Coq checks (EOF rank, char-ref states) + Coq termination proof of the tokenizer interpreter with explicit fuel bound (potential function, rank check on the regenerated table) + totality oracle incl. pathological inputs"),
@@ -150,7 +153,7 @@ CLAIMS = {
                      "counted by get_preprocessed_char; arms reconsume only after reading; EOF arms do not read; "
                      "C08_xml_bulk_table_conditions: no condition fails on the xml table). Still tested only: "
                      "the other options (discard_bom, drop_doctype, profile), the tree-builder level, and Rust "
-                     "vs interpreter: metamorphic option oracle on the implementation (tokens and trees). The `regular` (no fuel exhaustion) hypothesis of the whole-run theorems is discharged for both tokenizers by the explicit fuel bound of C04 (C08_exact_errors_changes_only_errors_and_text_cuts_total, C08_xml_..._total; TokIR/BulkTerm.v).",
+                     "vs interpreter: metamorphic option oracle on the implementation (tokens and trees). The `regular` (no fuel exhaustion) hypothesis of the whole-run theorems is discharged for both tokenizers by the explicit fuel bound of C04 (C08_exact_errors_changes_only_errors_and_text_cuts_total, C08_xml_..._total; TokIR/BulkTerm.v). Also for the flat queue with unit runs (C08_exact_errors_flat_unit_runs_total).",
                 note=TOK_NOTE, tech="reflective Coq checks on char sets + Coq stuttering simulation fast path vs slow path (whole driver, html and xml) + option metamorphic oracle"),
     "C09": dict(cat="proof", ref="DESIGN.md section 5 C09",
                 text="PARTIAL proof. Props/C09.v proves the law itself for ALL inputs on the interpreter over the regenerated html "
@@ -200,7 +203,7 @@ CLAIMS = {
                      "_partial: the Rust code "
                      "vs the interpreter is tied differentially. Chunking / exact_errors / discard_bom independence of the real "
                      "parser and the normalisation law tree(x) = tree(normalise(x)) are checked metamorphically on the "
-                     "implementation (tokens and trees); reference vs chunked interpreter vs Rust code tied differentially. The `regular` hypotheses of the xml default-mode theorems are discharged by the explicit fuel bound of C04_xml_tokenizer_run_terminates (C15_default_mode_run_is_regular, C15_default_mode_against_reference_total, C15_default_mode_is_reference_up_to_obs_total; TokIR/BulkTerm.v over TermX.v).",
+                     "implementation (tokens and trees); reference vs chunked interpreter vs Rust code tied differentially. The `regular` hypotheses of the xml default-mode theorems are discharged by the explicit fuel bound of C04_xml_tokenizer_run_terminates (C15_default_mode_run_is_regular, C15_default_mode_against_reference_total, C15_default_mode_is_reference_up_to_obs_total; TokIR/BulkTerm.v over TermX.v). Default-mode chunk independence from a fresh xml tokenizer without regularity hypotheses: C15_default_mode_chunking_independent_obs_total (fuel bounds + no 96) and C15_default_mode_chunking_independent_no_pauses.",
                 note=TOK_NOTE, tech="generic Coq suspend/resume proof + reflective checks on regenerated xml table + chunking/option/normalisation oracles"),
 }
 
